@@ -116,9 +116,11 @@ def run(ctx):
     grid = [k / 10.0 for k in range(0, 141, ctx.pick(5, 1))] + [0.0, 14.0, 7.4, 0.1, 13.9, -0.0, 0, 14, 7]
     outside = [-0.1, -1e-9, 14.000001, 14.1, 15, -3]
     extremes = list(common.AA) + ["KKKKKKKK", "RRRRRR", "DDDDEEEE", "HHHH", "CYCY", "GGSGQN", "R", "K", "D", "KRHDECY", "PPPPKE", "RRRRH", "GRGRGRGSPRQ", "RRK"]
-    for s in extremes:
+    mids = [7.0, 3.5, 10.5, 1.75, 5.25, 8.75, 12.25, 4.375, 9.625]        # pH values the pI bisection visits first
+    for n_, s in enumerate(extremes):
         o = lc.SP(s)
-        ev = ph_events(ctx, o, s, sorted(set(grid)), need) + ph_events(ctx, o, s, outside, need)
+        first = pi_event(ctx, o, s) if n_ % 2 else None            # the search before or after the pH queries
+        ev = ([first] if first else []) + ph_events(ctx, o, s, sorted(set(grid + mids)), need) + ph_events(ctx, o, s, outside, need)
         p = pi_event(ctx, o, s)
         if p:
             ev.append(p)
@@ -129,8 +131,9 @@ def run(ctx):
     for i, s in enumerate(seqs):
         o, s, how = make_object(lc, s, ctx.rng)
         hist = ([{"made": how}] if how != "direct" else []) + (warmup(o, ctx.rng) if i % 2 else [])
-        phs = sorted([ctx.rng.uniform(0, 14) for _ in range(ctx.pick(4, 8))] + [ctx.rng.choice(grid), 0, 14])
-        ev = ph_events(ctx, o, s, phs, need, hist) + ph_events(ctx, o, s, [ctx.rng.choice(outside)], need, hist)
+        phs = sorted([ctx.rng.uniform(0, 14) for _ in range(ctx.pick(4, 8))] + [ctx.rng.choice(grid), 0, 14] + ctx.rng.sample(mids, 3))
+        first = pi_event(ctx, o, s, hist) if i % 3 == 0 else None
+        ev = ([first] if first else []) + ph_events(ctx, o, s, phs, need, hist) + ph_events(ctx, o, s, [ctx.rng.choice(outside)], need, hist)
         p = pi_event(ctx, o, s, hist)
         if p:
             ev.append(p)
